@@ -6,12 +6,14 @@ package harness
 import (
 	"bufio"
 	"fmt"
+	"math"
 	"os"
 	"sort"
 	"strings"
 	"testing"
 	"testing/synctest"
 
+	"github.com/cinar/indicator/v2/helper"
 	"simrt"
 )
 
@@ -191,6 +193,7 @@ type PipeResult[O any] struct {
 	ProdDone []bool  // producer finished (closed its channel)
 	Avail    [][]int // step-feed mode: values received on each output after feeding position m
 	Built    bool
+	NbrBad   string // neighbour pipeline: what differs from its slice model ("" = nothing)
 }
 
 // PipeOpts configure one pipeline run.
@@ -198,6 +201,8 @@ type PipeOpts struct {
 	SimOpts
 	Cap      int  // capacity of the input channels
 	StepFeed bool // stall producers after every position and run the rest to quiescence
+	LateFeed bool // the producers start sending only after the pipeline constructor has returned ("build, then feed")
+	Neighbour bool // another, unrelated helper pipeline runs in the same simulation; both must be undisturbed
 	NoClose  bool // step-feed only: never close the inputs (used for stalled-producer observation)
 }
 
@@ -215,9 +220,13 @@ func runPipe[I, O any](o PipeOpts, inputs [][]I, build func(in []<-chan I) []<-c
 			ro[i] = ins[i]
 		}
 		gate := make([]chan struct{}, len(inputs))
+		builtGate := make(chan struct{})
 		for i, data := range inputs {
 			gate[i] = make(chan struct{}, len(data)+2)
 			simrt.GoKind("prod", func() {
+				if o.LateFeed {
+					<-builtGate
+				}
 				for _, v := range data {
 					if o.StepFeed {
 						<-gate[i]
@@ -239,6 +248,7 @@ func runPipe[I, O any](o PipeOpts, inputs [][]I, build func(in []<-chan I) []<-c
 			res.Outs = make([][]O, len(outs))
 			res.Closed = make([]bool, len(outs))
 			res.Built = true
+			close(builtGate)
 			for j, oc := range outs {
 				simrt.GoKind("cons", func() {
 					for {
@@ -253,6 +263,9 @@ func runPipe[I, O any](o PipeOpts, inputs [][]I, build func(in []<-chan I) []<-c
 				})
 			}
 		})
+		if o.Neighbour {
+			neighbourPipeline(&res.NbrBad)
+		}
 		if o.StepFeed {
 			maxn := 0
 			for _, d := range inputs {
@@ -289,4 +302,50 @@ func runPipe[I, O any](o PipeOpts, inputs [][]I, build func(in []<-chan I) []<-c
 	})
 	res.SimOut = *out
 	return res
+}
+
+
+// neighbourPipeline runs a small helper pipeline of its own next to the pipeline under test: other
+// parameters (two digits, another factor), other data. Whatever the two share can only be
+// package-level state of the library; each must come out as if it ran alone.
+func neighbourPipeline(bad *string) {
+	const n = 24
+	in := make(chan float64)
+	want := make([]float64, n)
+	vals := make([]float64, n)
+	for i := range vals {
+		vals[i] = float64(i)*1.23456 - 7.5
+		want[i] = math.Round(vals[i]*1.0001*100) / 100
+		if want[i] < 0 {
+			want[i] = -want[i]
+		}
+	}
+	simrt.GoKind("prod", func() {
+		for _, v := range vals {
+			prodYield()
+			in <- v
+		}
+		simrt.Yield(-3, "prod-close")
+		close(in)
+	})
+	simrt.GoKind("build", func() {
+		out := helper.Abs(helper.RoundDigits(helper.MultiplyBy(in, 1.0001), 2))
+		simrt.GoKind("cons", func() {
+			k := 0
+			for {
+				consYield()
+				v, ok := <-out
+				if !ok {
+					break
+				}
+				if k < n && v != want[k] && *bad == "" {
+					*bad = fmt.Sprintf("value %d of the neighbour pipeline (round to 2 digits) is %v, alone it is %v", k, v, want[k])
+				}
+				k++
+			}
+			if k != n && *bad == "" {
+				*bad = fmt.Sprintf("the neighbour pipeline delivered %d of %d values", k, n)
+			}
+		})
+	})
 }
